@@ -172,11 +172,19 @@ def apply_recipe(text, recipe):
 
 def base_documents(ctx, exe_topo):
     """small documents exported by hwloc itself: v3 and v2 of an annotated synthetic topology and of one with an I/O subtree"""
-    c08.prepass(ctx, exe_topo)
+    info = c08.prepass(ctx, exe_topo)
     io = c08.make_io_xml(ctx, "sym")
     p = lambda n: ctx.path("base-%s.xml" % n)
-    lines = ["reset 1", "init 0", "synthetic 0 node:2 core:1 pu:2", "filter 0 19 0", "load 0",
-             "add_info 0 1 Note a<b>&c", "cpukind 0 0-1 1", "cpukind 0 2-3 0", "dist_add 0 5 0 2 13 14 10 20 20 10",
+    g = info["nested"]["gps"]                       # "[numa] pack:2 [numa] core:2 pu:2"
+    pus, cores, numas = g[4], g[3], g[14]
+    mat = lambda n: " ".join(str(10 if r == c else 20 + r + c) for r in range(n) for c in range(n))
+    # every kind of element the exporter can write: infos with special characters, CPU kinds with infos, a homogeneous and a heterogeneous
+    # distances structure, memory attributes with and without initiators, Misc, Group, userdata
+    lines = ["reset 1", "init 0", "synthetic 0 [numa] pack:2 [numa] core:2 pu:2", "filter 0 19 0", "load 0",
+             "add_info 0 1 Note a<b>&c", "cpukind 0 0-3 1 1", "cpukind 0 4-7 0 1",
+             "dist_add 0 5 0 4 %s %s" % (" ".join(map(str, pus[:4])), mat(4)),
+             "dist_add 0 6 0 3 %d %d %d %s" % (pus[0], cores[1], numas[0], mat(3)),
+             "memattr 0 1 %d 100" % numas[0], "memattr 0 5 %d 7" % numas[1],
              "insert_misc 0 1 annot", "group 0 0-1 - 0 0 1",
              "xml_export 0 buffer %s 0 1" % p("v3"), "xml_export 0 buffer %s 2 1" % p("v2"), "destroy 0",
              "reset 1", "init 0", "xml 0 " + io, "filter 0 -1 0", "load 0",
@@ -189,7 +197,14 @@ def base_documents(ctx, exe_topo):
         if not os.path.exists(p(n)):
             raise vlib.Infra("base document %s was not exported" % n)
         docs[n] = open(p(n), encoding="latin-1").read()
+    for need in ("<distances2 ", "<distances2hetero ", "<memattr ", "<cpukind ", "<userdata ", "<info "):
+        if need not in docs["v3"]:
+            raise vlib.Infra("the base document lacks a %s element" % need)
     docs["diff"] = DIFF_DOC
+    # a document larger than the 16 KiB first read of the loaders that cannot stat their input: the v3 export with one long info value
+    m = re.search(r'(<object type="Machine"[^>]*>\n)', docs["v3"])
+    if m:
+        docs["big"] = docs["v3"][:m.end()] + '    <info name="Padding" value="%s"/>\n' % ("0123456789abcdef" * 1400) + docs["v3"][m.end():]
     return docs
 
 
@@ -286,8 +301,9 @@ def run(ctx, replay=None):
         out, st = ctx.tlc_mc("MC_XmlMut_gen", mc_cfg(n, 3, 2 + (ctx.seed % 2), True), tag="mutsim_" + name, workers=4,
                              extra_modules=[("MC_XmlMut_gen.tla", gen)], simulate="num=%d" % (2000 if thorough else 250), depth=5, timeout=900)
         multi = list(vlib.tlc_printed(out, "SIM"))
-        keep1 = len(singles) if (thorough and not big) else min(len(singles), 2500 if thorough else 400)
-        keepm = min(len(multi), 4000 if thorough else 150)
+        main = name in ("v3", "io3", "diff")           # quick: the other documents (v2 formats, the padded one) get the always-taken recipes and a smaller sample
+        keep1 = len(singles) if (thorough and not big) else min(len(singles), 2500 if thorough else (200 if main else 60))
+        keepm = min(len(multi), 4000 if thorough else (100 if main else 30))
         if keep1 == len(singles):
             picks1 = singles
         else:
@@ -299,7 +315,7 @@ def run(ctx, replay=None):
                 if root is None and e["name"] == "object":
                     root = i + 1
             firsts = set(first.values())
-            prio = [r for r in singles if (r[0][0] == "cutat" and r[0][1] in firsts) or (r[0][0] == "retype" and r[0][1] == root and (thorough or r[0][2] % 3 == ctx.seed % 3))
+            prio = [r for r in singles if (r[0][0] in ("cutat", "dupelem", "dropelem") and r[0][1] in firsts) or (r[0][0] == "retype" and r[0][1] == root and (thorough or (main and r[0][2] % 3 == ctx.seed % 3)))
                     or r[0][0] in ("doctype", "setversion", "truncate")]
             rest = [r for r in singles if r not in prio] if len(singles) < 20000 else singles
             picks1 = prio + by_kind(rest, keep1, rng)
@@ -327,7 +343,7 @@ def run(ctx, replay=None):
     behs = []
     good = [it for it in items if it[2] == 1 and it[1] == "topo"]          # pristine documents: what a failed topology is given next (after = 2)
     for p, kind, pristine, b in items:
-        mode = rng.choice(["buffer", "file"])
+        mode = rng.choice(["buffer", "file", "fifo"])
         head = "#doc %s %s\n" % (p, b.hex())
         if kind == "diff":
             behs.append(head + "reset\ndiffload %s %s %d\n" % (p, mode, pristine))
